@@ -319,3 +319,26 @@ fn c02_cover() {
     kani::cover!(kind_of(&p, m) == 3 && r::apply(&p, m).ep != r::NO_EP);
     kani::cover!(kind_of(&p, m) == 0 && r::apply(&p, m).rights != p.rights);
 }
+
+/// spec-only lemma for the induction over histories: a legal move from a valid position leads to a valid position
+/// (one king each, <= 16 per side, side that just moved not in check, castling rights only with king and rook at
+/// home, e.p. marker behind a pawn that just made a double step, no pawn on a back rank)
+#[kani::proof]
+#[kani::unwind(9)]
+fn c02_valid_preserved() {
+    let b = any_board();
+    let p = view(&b);
+    kani::assume(r::valid(&p));
+    let mv = any_move();
+    let m = mv_of(mv);
+    kani::assume(r::legal(&p, m));
+    let q = r::apply(&p, m);
+    assert!(r::wf_placement(&q), "VERIF successor is not a placement after {:?}", mv);
+    assert!(r::one_king_each(&q) && r::at_most_16(&q), "VERIF successor king/piece counts after {:?}", mv);
+    assert!(r::opponent_not_in_check(&q), "VERIF the side that just moved is in check after {:?}", mv);
+    assert!(r::rights_ok(&q), "VERIF successor castling rights inconsistent after {:?}", mv);
+    assert!(r::ep_ok(&q), "VERIF successor e.p. marker inconsistent after {:?}", mv);
+    assert!(q.pcs[r::PAWN as usize] & (g::rank_set(0) | g::rank_set(7)) == 0, "VERIF pawn on a back rank after {:?}", mv);
+    kani::cover!(m.promo != 0, "reach: promotion");
+    kani::cover!(q.ep != r::NO_EP, "reach: double step");
+}
